@@ -24,7 +24,7 @@ TRUSTED_BASE = [
     "Coq 8.16.1 kernel (coqc, full .vo build; vm_compute used for finite sweeps and witnesses; no native_compute)",
     "no axioms: every property theorem is 'Closed under the global context' (checked from Print Assumptions output on each run)",
     "hand-written Gallina model of go/mcap, go/ros and python/mcap (coq/theories/*.v), tied to /repo by differential execution on each run",
-    "translators: tools/gotrans (Go AST) + tools/gen_layout.py regenerate Layout_gen.v (record read/write layouts of parse.go and writer.go), tools/gotrans/decisions.go + tools/gen_decisions.py regenerate DecisionsR_gen.v / DecisionsW_gen.v / DecisionsL_gen.v (41 boolean decisions of the readers, read options, writer and lexer), and tools/common.py / tools/gen_c17.py regenerate Consts_gen.v / Vectors_gen.v on each run; LayoutTie.v, DecisionTieR.v, DecisionTieW.v, DecisionTieL.v, ConstsTie.v and properties/C17.v are re-proved against them",
+    "translators: tools/gotrans (Go AST) + tools/gen_layout.py regenerate Layout_gen.v (record read/write layouts of parse.go and writer.go), tools/gotrans/decisions.go + tools/gen_decisions.py regenerate DecisionsR_gen.v / DecisionsW_gen.v / DecisionsL_gen.v (41 boolean decisions of the readers, read options, writer and lexer), tools/pytrans.py (Python ast) regenerates PyDecisions_gen.v (22 decisions of python/mcap's readers and message queue), and tools/common.py / tools/gen_c17.py regenerate Consts_gen.v / Vectors_gen.v on each run; LayoutTie.v, DecisionTieR.v, DecisionTieW.v, DecisionTieL.v, PyDecisionTie.v, ConstsTie.v and properties/C17.v are re-proved against them",
     "extraction: ExtrOcamlBasic only (bool, option, unit, list, prod, sumbool, sumor; andb/orb inlined); N, Z, positive, nat, Byte.byte extracted as inductives",
     "hand-written OCaml driver (ocaml/*.ml, zarith for decimal I/O), OCaml 4.13.1",
     "Go harness (harness/*.go, build tag verif; a -race build for C13), tools/py_harness.py driving python/mcap, and Python generators/comparators/oracles (tools/*.py)",
@@ -157,6 +157,11 @@ def build_coq(log=None):
             gen_layout.main()
         except Exception as e:  # noqa: BLE001
             sys.stderr.write("gen_layout failed: %s\n" % e)
+        try:
+            import pytrans
+            pytrans.main()
+        except Exception as e:  # noqa: BLE001
+            sys.stderr.write("pytrans failed: %s\n" % e)
         if newer([os.path.join(COQ, "_CoqProject")], os.path.join(COQ, "Makefile")):
             run(["coq_makefile", "-f", "_CoqProject", "-o", "Makefile"], cwd=COQ)
         if not os.path.exists(os.path.join(COQ, "Makefile")):
